@@ -19,7 +19,8 @@ pub struct Call {
     pub n: u16,
     pub key: u32,
     /// 0: marker field values; 1: every field 0 or 8 (bits of `key`), which
-    /// makes tag tails that look like an end tag; 2: special-value pool
+    /// makes tag tails that look like an end tag; 2: special-value pool;
+    /// 3: one byte value in every position; 4: screen geometries and depths
     #[serde(default)]
     pub mode: u8,
 }
@@ -31,6 +32,13 @@ fn fv(c: &Call, j: usize) -> u32 {
     match c.mode {
         0 => w(c.key, j),
         1 => [0, 8][(c.key >> (2 + j % 16) & 1) as usize],
+        // every field the same byte in all positions (zeroed / erased / poisoned memory)
+        3 => u32::from_le_bytes([(c.key >> 8) as u8; 4]),
+        // geometries, depths and addresses that occur in practice
+        4 => {
+            let r = mb2_model::realistic::WIDTHS.iter().chain(mb2_model::realistic::HEIGHTS.iter()).chain(mb2_model::realistic::DEPTHS.iter()).copied().collect::<Vec<u32>>();
+            r[(w(c.key, j) % r.len() as u32) as usize]
+        }
         _ => POOL[(w(c.key, j) % POOL.len() as u32) as usize],
     }
 }
@@ -75,6 +83,12 @@ fn apply(b: h::Builder, c: &Call) -> (h::Builder, Vec<u8>) {
             let t = h::ConsoleHeaderTag::new(fl, if k & 2 == 0 { h::ConsoleHeaderTagFlags::ConsoleRequired } else { h::ConsoleHeaderTagFlags::EgaTextSupported });
             let i = image(&t);
             (b.console_tag(t), i)
+        }
+        4 if c.mode == 5 => {
+            use mb2_model::realistic::{DEPTHS, HEIGHTS, WIDTHS};
+            let t = h::FramebufferHeaderTag::new(fl, WIDTHS[k as usize & 0xff], HEIGHTS[(k >> 8) as usize & 0xff], DEPTHS[(k >> 16) as usize & 0xff]);
+            let i = image(&t);
+            (b.framebuffer_tag(t), i)
         }
         4 => {
             let t = h::FramebufferHeaderTag::new(fl, fv(c, 0), fv(c, 1), fv(c, 2));
@@ -196,13 +210,19 @@ fn enumerate(_: &Ctx) -> Box<dyn Iterator<Item = Case>> {
             (0..4u16).flat_map(move |n| (0..64u32).map(move |bits| Case { arch, calls: vec![Call { slot, n, key: bits << 2 | (bits & 1), mode: 1 }] }))
         })
     });
+    // every byte value as uniform content of every single-tag header
+    let uniform = (0..SLOTS as u8).flat_map(|slot| (0..=255u32).map(move |b| Case { arch: b & 1, calls: vec![Call { slot, n: 4, key: b << 8 | (b & 1), mode: 3 }] }));
+    // the framebuffer tag with every geometry x depth of the pools
+    let fb = (0..mb2_model::realistic::WIDTHS.len()).flat_map(|wi| {
+        (0..mb2_model::realistic::HEIGHTS.len()).flat_map(move |hi| (0..mb2_model::realistic::DEPTHS.len()).map(move |di| Case { arch: 0, calls: vec![Call { slot: 4, n: 0, key: (wi | hi << 8 | di << 16) as u32, mode: 5 }] }))
+    });
     let big = [2040u16, 2041, 2042, 2047, 2048, 4096, 8100].into_iter().map(|n| Case { arch: 0, calls: vec![Call { slot: 0, n, key: n as u32, mode: 0 }, Call { slot: 2, n: 0, key: 5, mode: 0 }] });
-    Box::new(it.chain(single).chain(big))
+    Box::new(it.chain(single).chain(uniform).chain(fb).chain(big))
 }
 
 fn strategy(_: &Ctx) -> BoxedStrategy<Case> {
     let n = prop_oneof![16 => 0u16..33, 1 => 33u16..2100, 1 => 2000u16..8100];
-    let mode = prop_oneof![3 => Just(0u8), 2 => Just(1u8), 1 => Just(2u8)];
+    let mode = prop_oneof![3 => Just(0u8), 2 => Just(1u8), 1 => Just(2u8), 1 => Just(3u8), 1 => Just(4u8)];
     (0u32..2, proptest::collection::vec((0u8..SLOTS as u8, n, any::<u32>(), mode), 0..=16))
         .prop_map(|(arch, v)| Case { arch, calls: v.into_iter().map(|(slot, n, key, mode)| Call { slot, n, key, mode }).collect() })
         .boxed()
@@ -211,7 +231,7 @@ fn strategy(_: &Ctx) -> BoxedStrategy<Case> {
 pub fn subs() -> Vec<Box<dyn Sub>> {
     vec![Box::new(PropSub::<Case> {
         name: "builder",
-        rule: "header Builder: enumerated completely in every tier: all 2^10 subsets of the builder slots x both architectures (one call per chosen slot); generated: 0..=16 calls in random order with repeats, information-request lists of 0..=32 entries (sometimes up to 8100, i.e. headers up to the specification's 32768 bytes), field values as markers, as 0/8 patterns (tag tails that look like an end tag; all single-tag headers with such patterns are enumerated) or from a special-value pool. Oracle: 8-aligned, loads, magic, chosen architecture, length word == byte length, checksum congruence (reference model), walk == supplied tags (last call per slot wins) byte-identical up to their sizes, and the final 8 bytes are an end tag (type 0, flags 0, size 8). Non-trivial = at least one call; distinct by (arch, call list)",
+        rule: "header Builder: enumerated completely in every tier: all 2^10 subsets of the builder slots x both architectures (one call per chosen slot); generated: 0..=16 calls in random order with repeats, information-request lists of 0..=32 entries (sometimes up to 8100, i.e. headers up to the specification's 32768 bytes), field values as markers, as 0/8 patterns (tag tails that look like an end tag; all single-tag headers with such patterns are enumerated), from a special-value pool, as one byte value in every position (all 256 values enumerated for every single-tag header), or as screen geometries/depths that occur in practice (the framebuffer tag with the full cross product of 12 widths x 12 heights x 8 depths is enumerated). Oracle: 8-aligned, loads, magic, chosen architecture, length word == byte length, checksum congruence (reference model), walk == supplied tags (last call per slot wins) byte-identical up to their sizes, and the final 8 bytes are an end tag (type 0, flags 0, size 8). Non-trivial = at least one call; distinct by (arch, call list)",
         profiles: Profiles::Both,
         quick: 30000,
         thorough: 2000000,
